@@ -600,9 +600,32 @@ pub fn run(a: &RunArgs) -> Outcome {
         let mut f = f.clone();
         let mut sig = sig.clone();
         if matches!(f.violation.kind.as_str(), "abort" | "stack-overflow" | "hang") {
-            if let Ok(Some(v)) = exec_file_in_child(&exe, &f.replay, Duration::from_secs(120)) {
-                f.violation = v;
-                sig = f.violation.signature();
+            let was_watchdog = f.violation.kind == "hang";
+            match exec_file_in_child(&exe, &f.replay, Duration::from_secs(120)) {
+                Ok(Some(v)) => {
+                    f.violation = v;
+                    sig = f.violation.signature();
+                }
+                Ok(None) if was_watchdog => {
+                    // The watchdog is the one wall-clock element of the machinery. The run it
+                    // blamed finishes, without any violation, when executed again in a fresh
+                    // process: the worker was starved by the host (seen once, with four 16-worker
+                    // batches sharing 16 cores), not stuck in the library. Not a violation.
+                    let again = exec_file_in_child(&exe, &f.replay, Duration::from_secs(120));
+                    if matches!(again, Ok(None)) {
+                        println!(
+                            "NOTE: watchdog expiry of job {} run {} ({}) did not reproduce in two fresh executions of that run (host overloaded?); not reported",
+                            f.job, f.sub, f.profile
+                        );
+                        let _ = std::fs::remove_file(&f.replay);
+                        continue;
+                    }
+                    if let Ok(Some(v)) = again {
+                        f.violation = v;
+                        sig = f.violation.signature();
+                    }
+                }
+                _ => {}
             }
         }
         if let Some((_, _, what)) = known.findings.iter().find(|(p, s, _)| *p == a.prop && *s == sig) {
